@@ -68,6 +68,37 @@ def transfer_leg(ctx):
     return n
 
 
+def calltime_leg(ctx):
+    """check_valid="shallow" given at call time on a call that is answered from the cache beneath a newly recorded (shallow) ancestor:
+    the ancestor's recorded subtree must still contain the tasks below that call."""
+    import wf.editable as E
+    from checks import crash_common as cc
+    from engine import crash, seams
+
+    n = 0
+    opts = {"smain": {"check_valid": "shallow"}}
+    for second_tag in ("a", "b"):
+        for edit in (None, "leaf", "mid", "smain"):
+            db = seams.fresh_db_path("c03ct")
+            E.define_all({}, opts)
+            crash.run_workload(lambda env: [env.run(E.T("smain")(("a", 1))), env.run(E.T("smain")((second_tag, 1)))], db)
+            bodies = {edit: 1} if edit else {}
+            E.define_all(bodies, opts)
+            _, got, _ = crash.run_workload(lambda env: [env.run(E.T("smain")((second_tag, 1)))], db, id_salt=3)
+            calls = dict(E.CALLS)
+            E.define_all(bodies, opts)
+            exp_db = seams.fresh_db_path("c03cte")
+            _, exp, _ = crash.run_workload(lambda env: [env.run(E.T("smain")((second_tag, 1)))], exp_db)
+            seams.remove_db(exp_db)
+            seams.remove_db(db)
+            n += 1
+            if cc.norm(got) != cc.norm(exp):
+                ctx.violation(f"calltime-shallow:stale-hit:edit-{edit}", {"second_tag": second_tag, "edit": edit},
+                              f"smain[shallow](('a',1)); smain(('{second_tag}',1)); edit {edit}; smain(('{second_tag}',1)) returns {cc.norm(got)} "
+                              f"(functions run: {calls}), an empty backend gives {cc.norm(exp)}; mid is called with .options(check_valid='shallow')")
+    return n
+
+
 def run(ctx):
     from checks import crash_common
 
@@ -77,7 +108,9 @@ def run(ctx):
     wl = ctx.pick(["chain-shallow", "noprov-shallow"], ["chain-shallow", "fan-shallow", "noprov-shallow"])
     cov = crash_common.run_property(ctx, "C03", wl)
     n = transfer_leg(ctx)
-    cov["evaluations"] += n
+    n_ct = calltime_leg(ctx)
+    cov["calltime_shallow_histories"] = n_ct
+    cov["evaluations"] += n + n_ct
     cov["transfer_runs"] = n
     cov["rule"] = ("workflow top[check_valid=shallow] -> mid -> leaf (thorough: also a fan with a duplicate child): first execution is "
                    "crashed before EVERY commit / hit by a transient fault at EVERY statement / transferred to another repository; then every "
